@@ -15,12 +15,13 @@ PROP = {
             "need escaping, typed values; map types json.Marshal rejects; ordered maps, keyed maps, structs, ranges, drops, "
             "pointers, times around the year 0 / 9999 limits) and on random value trees with random strings and floats, each with an oracle on the real result "
             "(the text parses back with encoding/json to the logical value of the receiver; identical for 4 insertion orders of "
-            "every map); date / time printing / ParseDate: every conversion character (a-z A-Z + %) on a universe of 240 instants (epoch, "
+            "every map); date / time printing / ParseDate: every conversion character (a-z A-Z + %) on a universe of 239 instants (epoch, "
             "negative instants, leap days, century and 400-year rules, year boundaries, 1999-12-31 23:59:59, 2038, the years -1 / 0 / 1 / "
             "9999 / 10000, midnight and noon, every weekday and month, ISO-week corner years, |u| up to 2^62), conversion x flag "
-            "(none - _ 0 ^ # : :: :::) x width (none 1 3 6 12) x modifier (none E) on five instants, a fixed family of 280 format "
-            "strings (regexp corner cases, widths around the model bound 1024 and fmt's NOVERB bound) and of receivers (nil, 100 strings: "
-            "the five all-digit layouts with fields in and out of range, near misses, the other layouts; every value of the universe), "
+            "(none - _ 0 ^ # : :: :::) x width (none 1 3 6 12) x modifier (none E) on five instants, a fixed family of 232 format "
+            "strings (regexp corner cases, widths around the model bound 1024 and fmt's NOVERB bound) and of receivers (nil, 91 strings: "
+            "the five all-digit layouts with fields in and out of range, near misses, the other layouts; 1014 strings on how a value can "
+            "begin: weekday and month names in any case, two-digit day, four-digit year, and their near misses; every value of the universe), "
             "random formats x random instants, random all-digit strings, {{ t }} / fmt.Sprint / Convert to string of times alone and "
             "inside containers, Convert of strings to time, each with an oracle on the real result (%Y-%m-%d %H:%M:%S, {{ t }} and "
             "fmt.Sprint parse back with time.Parse to the instant; %s is the unix time; %j %m %d %H %M %S %u %w %V %U %W %I in range; the "
